@@ -12,6 +12,10 @@ def base_tissue(rng, fam, ncells=None, max_phi=1.2):
         nx, ny = int(rng.integers(2, 6)), int(rng.integers(2, 6))
         if kind == "hex":
             nx, ny = int(rng.integers(2, 5)), int(rng.integers(2, 5))
+        if kind == "rosette":
+            nx = int(rng.integers(3, 12)) if rng.random() < 0.85 else int(rng.integers(128, 150))
+        if kind == "diamond":
+            return tissue.lattice(kind, nx, ny, a=float(2.0 ** rng.integers(-3, 4)))
         at = tissue.lattice(kind, nx, ny, a=float(10 ** rng.uniform(-1, 1)))
         return at
     n = ncells or int(rng.integers(8, 70))
